@@ -105,6 +105,7 @@ from .safe import (
     safe_hasattr,
     safe_isinstance,
     safe_issubclass,
+    safe_repr,
 )
 from .shared_options import EnforceNoUnused, ImportPaths, Paths
 from .signature import (
@@ -3345,13 +3346,14 @@ class NameCheckVisitor(node_visitor.ReplacingNodeVisitor):
 
             try:
                 already_exists = key in ret
-            except TypeError:
+            except Exception:
+                # unhashable, or its __hash__ or __eq__ fails in some other way
                 continue
 
             if already_exists:
                 self._show_error_if_checking(
                     key_node,
-                    f"Duplicate dictionary key {key!r}",
+                    f"Duplicate dictionary key {safe_repr(key)}",
                     ErrorCode.duplicate_dict_key,
                 )
             ret[key] = value
